@@ -69,6 +69,10 @@ def run(ctx):
     if ctx.apalache("HyperslabLemmas.tla", "Init", "BadIncreasing", 0) != "error":
         raise H.Infra("HyperslabLemmas: the order lemma without properness is not refuted - the proof is vacuous")
     lines, gr = ctx.generate("C09Shapes.tla", "C09_thorough.cfg" if thorough else "C09_quick.cfg")
+    # the deviation repaired in f6f832f: visiting the bounding box of chunks is not bounded by the selection
+    bbox = ctx.tlc("C09Shapes.tla", "C09_code_bbox.cfg", workers=1, timeout=300)
+    if bbox.ok or not bbox.violated:
+        raise H.Infra("Hyperslab!BBoxBoundLaw is no longer refuted by TLC (C09_code_bbox.cfg)")
     cases = [json.loads(x) for x in lines]
     ngen = len(cases)
     cases += random_cases(ctx, 300 if thorough else 40) + resized_cases(ctx, 120 if thorough else 40)
